@@ -11,7 +11,9 @@ use barter::{
             max::{MaxDrawdown, MaxDrawdownGenerator},
             mean::{MeanDrawdown, MeanDrawdownGenerator},
         },
-        summary::{asset::TearSheetAssetGenerator, instrument::TearSheetGenerator},
+        summary::{
+            TradingSummaryGenerator, asset::TearSheetAssetGenerator, instrument::TearSheetGenerator,
+        },
         time::Daily,
     },
 };
@@ -21,8 +23,9 @@ use barter_execution::{
 };
 use barter_instrument::{
     Side,
-    asset::{AssetIndex, QuoteAsset},
-    instrument::InstrumentIndex,
+    asset::{AssetIndex, ExchangeAsset, QuoteAsset, name::AssetNameInternal},
+    exchange::ExchangeId,
+    instrument::{InstrumentIndex, name::InstrumentNameInternal},
 };
 use barter_integration::snapshot::Snapshot;
 use chrono::{DateTime, TimeZone, Utc};
@@ -31,14 +34,33 @@ use serde_json::{Value, json};
 use std::panic::AssertUnwindSafe;
 use vh_common::*;
 
-fn time_of(ms: i64) -> DateTime<Utc> {
-    Utc.timestamp_millis_opt(ms).unwrap()
+/// times are exact nanoseconds since the epoch (chrono's resolution); the Coq side keeps the same
+/// unit, milliseconds only appear where the code itself truncates (`num_milliseconds`)
+type Ns = i128;
+const NS: i128 = 1_000_000_000;
+const MS: i128 = 1_000_000;
+
+fn time_of(ns: Ns) -> DateTime<Utc> {
+    Utc.timestamp_opt(ns.div_euclid(NS) as i64, ns.rem_euclid(NS) as u32)
+        .unwrap()
 }
-fn ms_of(t: DateTime<Utc>) -> i64 {
-    t.timestamp_millis()
+fn ms_of(t: DateTime<Utc>) -> Ns {
+    t.timestamp() as i128 * NS + t.timestamp_subsec_nanos() as i128
 }
-fn zt(ms: i64) -> String {
-    z(ms as i128)
+fn zt(ns: Ns) -> String {
+    z(ns)
+}
+/// a time in an input: a JSON string holds nanoseconds, a JSON number milliseconds (older
+/// corpus files)
+fn json_time(v: &Value) -> Option<Ns> {
+    match v {
+        Value::String(x) => x.parse().ok(),
+        Value::Number(n) => n.as_i64().map(|m| m as i128 * MS),
+        _ => None,
+    }
+}
+fn time_json(t: Ns) -> Value {
+    Value::String(t.to_string())
 }
 
 // ---- Coq printers for observed values -------------------------------------------------------
@@ -83,18 +105,18 @@ fn coq_meanstate(g: &MeanDrawdownGenerator) -> String {
 #[derive(Clone, Debug)]
 struct DdIn {
     v: Decimal,
-    s: i64,
-    e: i64,
+    s: Ns,
+    e: Ns,
 }
 impl DdIn {
     fn json(&self) -> Value {
-        json!({"v": self.v.to_string(), "s": self.s, "e": self.e})
+        json!({"v": self.v.to_string(), "s": time_json(self.s), "e": time_json(self.e)})
     }
     fn from(v: &Value) -> Option<DdIn> {
         Some(DdIn {
             v: v.get("v")?.as_str()?.parse().ok()?,
-            s: v.get("s")?.as_i64()?,
-            e: v.get("e")?.as_i64()?,
+            s: json_time(v.get("s")?)?,
+            e: json_time(v.get("e")?)?,
         })
     }
     fn dd(&self) -> Drawdown {
@@ -113,13 +135,15 @@ impl DdIn {
 /// of generate(). `w` is the free balance for the asset tear sheet and unused elsewhere.
 #[derive(Clone, Debug)]
 enum Op {
-    Upd { t: i64, v: Decimal, w: Decimal },
+    Upd { t: Ns, v: Decimal, w: Decimal },
     Gen,
 }
 impl Op {
     fn json(&self) -> Value {
         match self {
-            Op::Upd { t, v, w } => json!({"t": t, "v": v.to_string(), "w": w.to_string()}),
+            Op::Upd { t, v, w } => {
+                json!({"t": time_json(*t), "v": v.to_string(), "w": w.to_string()})
+            }
             Op::Gen => json!({"gen": true}),
         }
     }
@@ -128,7 +152,7 @@ impl Op {
             return Some(Op::Gen);
         }
         Some(Op::Upd {
-            t: v.get("t")?.as_i64()?,
+            t: json_time(v.get("t")?)?,
             v: v.get("v")?.as_str()?.parse().ok()?,
             w: match v.get("w") {
                 Some(w) => w.as_str()?.parse().ok()?,
@@ -162,7 +186,7 @@ fn panic_case(in_scope: bool, what: &str) -> Ran {
 }
 
 /// DrawdownGenerator directly. start = None: DrawdownGenerator::default(); Some: init(point).
-fn run_gen(start: &Option<(i64, Decimal)>, ops: &[Op]) -> Ran {
+fn run_gen(start: &Option<(Ns, Decimal)>, ops: &[Op]) -> Ran {
     let r = catch(AssertUnwindSafe(|| {
         let mut tags = vec![];
         let mut g = match start {
@@ -315,7 +339,7 @@ fn coq_obal(b: &Option<Balance>) -> String {
     opt(b.map(|b| pair(&dec_q(b.total), &dec_q(b.free))))
 }
 
-fn run_asset(start: &(i64, Decimal, Decimal), ops: &[Op]) -> Ran {
+fn run_asset(start: &(Ns, Decimal, Decimal), ops: &[Op]) -> Ran {
     let r = catch(AssertUnwindSafe(|| {
         let mut g = TearSheetAssetGenerator::init(&Timed::new(
             Balance::new(start.1, start.2),
@@ -396,22 +420,25 @@ fn run_asset(start: &(i64, Decimal, Decimal), ops: &[Op]) -> Ran {
     })
 }
 
-fn position(pnl: Decimal, t_exit: i64) -> PositionExited<QuoteAsset, InstrumentIndex> {
+/// a closed position whose only fields the drawdown path may use are `pnl_realised` and
+/// `time_exit`; every other field carries a decoy value different from those (fees that are not
+/// zero, an entry time well before the exit, a cost basis unrelated to the PnL)
+fn position<K>(key: K, pnl: Decimal, t_exit: Ns) -> PositionExited<QuoteAsset, K> {
     PositionExited {
-        instrument: InstrumentIndex(0),
-        side: Side::Buy,
-        price_entry_average: Decimal::new(100, 0),
-        quantity_abs_max: Decimal::new(10, 0),
+        instrument: key,
+        side: Side::Sell,
+        price_entry_average: Decimal::new(137, 0),
+        quantity_abs_max: Decimal::new(11, 0),
         pnl_realised: pnl,
-        fees_enter: AssetFees::quote_fees(Decimal::ZERO),
-        fees_exit: AssetFees::quote_fees(Decimal::ZERO),
-        time_enter: time_of(t_exit - 1),
+        fees_enter: AssetFees::quote_fees(Decimal::new(33, 1)),
+        fees_exit: AssetFees::quote_fees(Decimal::new(17, 1)),
+        time_enter: time_of(t_exit - 7_777_000_123),
         time_exit: time_of(t_exit),
         trades: vec![],
     }
 }
 
-fn run_inst(t0: i64, ops: &[Op]) -> Ran {
+fn run_inst(t0: Ns, ops: &[Op]) -> Ran {
     let r = catch(AssertUnwindSafe(|| {
         let mut g = TearSheetGenerator::init(time_of(t0));
         let state = |g: &TearSheetGenerator| {
@@ -432,7 +459,7 @@ fn run_inst(t0: i64, ops: &[Op]) -> Ran {
             match op {
                 Op::Upd { t, v, .. } => {
                     let completed_before = g.pnl_drawdown_mean.count;
-                    g.update_from_position(&position(*v, *t));
+                    g.update_from_position(&position(InstrumentIndex(0), *v, *t));
                     tags.push(
                         if g.pnl_drawdown_mean.count != completed_before {
                             "inst_upd_completes"
@@ -486,6 +513,201 @@ fn run_inst(t0: i64, ops: &[Op]) -> Ran {
     })
 }
 
+// ---- TradingSummaryGenerator: several instruments and assets fed interleaved ------------------
+
+/// an operation on a TradingSummaryGenerator: a closed position of instrument `k` (addressed by
+/// index, or by name when `by_name`), a balance of asset `k`, or generate()
+#[derive(Clone, Debug)]
+enum SOp {
+    Pos { k: usize, by_name: bool, t: Ns, v: Decimal },
+    Bal { k: usize, by_name: bool, t: Ns, v: Decimal, w: Decimal },
+    Gen,
+}
+impl SOp {
+    fn json(&self) -> Value {
+        match self {
+            SOp::Pos { k, by_name, t, v } => {
+                json!({"pos": k, "by_name": by_name, "t": time_json(*t), "v": v.to_string()})
+            }
+            SOp::Bal { k, by_name, t, v, w } => {
+                json!({"bal": k, "by_name": by_name, "t": time_json(*t), "v": v.to_string(), "w": w.to_string()})
+            }
+            SOp::Gen => json!({"gen": true}),
+        }
+    }
+    fn from(v: &Value) -> Option<SOp> {
+        if v.get("gen").is_some() {
+            return Some(SOp::Gen);
+        }
+        let by_name = v.get("by_name").and_then(|b| b.as_bool()).unwrap_or(false);
+        let t = json_time(v.get("t")?)?;
+        let val = v.get("v")?.as_str()?.parse().ok()?;
+        if let Some(k) = v.get("pos") {
+            return Some(SOp::Pos { k: k.as_u64()? as usize, by_name, t, v: val });
+        }
+        Some(SOp::Bal {
+            k: v.get("bal")?.as_u64()? as usize,
+            by_name,
+            t,
+            v: val,
+            w: v.get("w")?.as_str()?.parse().ok()?,
+        })
+    }
+}
+
+/// names whose sort order differs from their position, sharing prefixes
+const INST_NAMES: [&str; 4] = ["z_btc_usdt", "btc_usdt", "btc_usd", "a_eth"];
+const ASSET_NAMES: [&str; 3] = ["usdt", "btc", "usd"];
+const ASSET_EXCHANGES: [ExchangeId; 3] = [ExchangeId::Simulated, ExchangeId::Mock, ExchangeId::BinanceSpot];
+
+fn inst_name(k: usize) -> InstrumentNameInternal {
+    InstrumentNameInternal::new(INST_NAMES[k % INST_NAMES.len()])
+}
+fn asset_key(k: usize) -> ExchangeAsset<AssetNameInternal> {
+    ExchangeAsset::new(
+        ASSET_EXCHANGES[k % ASSET_EXCHANGES.len()],
+        AssetNameInternal::new(ASSET_NAMES[k % ASSET_NAMES.len()]),
+    )
+}
+
+fn run_summary(t0: Ns, n_inst: usize, starts: &[(Ns, Decimal, Decimal)], ops: &[SOp]) -> Ran {
+    let n_inst = n_inst.min(INST_NAMES.len());
+    let starts = &starts[..starts.len().min(ASSET_NAMES.len())];
+    let r = catch(AssertUnwindSafe(|| {
+        let mut g = TradingSummaryGenerator {
+            risk_free_return: Decimal::ZERO,
+            time_engine_start: time_of(t0),
+            time_engine_now: time_of(t0),
+            instruments: (0..n_inst)
+                .map(|k| (inst_name(k), TearSheetGenerator::init(time_of(t0))))
+                .collect(),
+            assets: starts
+                .iter()
+                .enumerate()
+                .map(|(k, (t, v, w))| {
+                    (
+                        asset_key(k),
+                        TearSheetAssetGenerator::init(&Timed::new(Balance::new(*v, *w), time_of(*t))),
+                    )
+                })
+                .collect(),
+        };
+        let state = |g: &TradingSummaryGenerator| {
+            let is: Vec<String> = g
+                .instruments
+                .values()
+                .map(|s| {
+                    format!(
+                        "({}, {}, {})",
+                        zt(ms_of(s.time_engine_now)),
+                        dec_q(s.pnl_returns.pnl_raw),
+                        coq_three(&s.pnl_drawdown, &s.pnl_drawdown_mean, &s.pnl_drawdown_max)
+                    )
+                })
+                .collect();
+            let as_: Vec<String> = g
+                .assets
+                .values()
+                .map(|s| {
+                    pair(
+                        &coq_obal(&s.balance_now),
+                        &coq_three(&s.drawdown, &s.drawdown_mean, &s.drawdown_max),
+                    )
+                })
+                .collect();
+            pair(&list(&is), &list(&as_))
+        };
+        let obs0 = state(&g);
+        let mut obs = vec![];
+        let mut cops = vec![];
+        let mut tags = vec![];
+        let mut nontrivial = false;
+        for op in ops {
+            match op {
+                SOp::Pos { k, by_name, t, v } => {
+                    if *k >= n_inst {
+                        continue;
+                    }
+                    if *by_name {
+                        g.update_from_position(&position(inst_name(*k), *v, *t));
+                        tags.push("summary_pos_by_name".to_string());
+                    } else {
+                        g.update_from_position(&position(InstrumentIndex(*k), *v, *t));
+                        tags.push("summary_pos_by_index".to_string());
+                    }
+                    cops.push(format!("(SP {}%nat {} {})", k, zt(*t), dec_q(*v)));
+                    obs.push(format!("(None, {})", state(&g)));
+                }
+                SOp::Bal { k, by_name, t, v, w } => {
+                    if *k >= starts.len() {
+                        continue;
+                    }
+                    if *by_name {
+                        g.update_from_balance(Snapshot(&AssetBalance {
+                            asset: asset_key(*k),
+                            balance: Balance::new(*v, *w),
+                            time_exchange: time_of(*t),
+                        }));
+                        tags.push("summary_bal_by_name".to_string());
+                    } else {
+                        g.update_from_balance(Snapshot(&AssetBalance {
+                            asset: AssetIndex(*k),
+                            balance: Balance::new(*v, *w),
+                            time_exchange: time_of(*t),
+                        }));
+                        tags.push("summary_bal_by_index".to_string());
+                    }
+                    cops.push(format!("(SB {}%nat {} {} {})", k, zt(*t), dec_q(*v), dec_q(*w)));
+                    obs.push(format!("(None, {})", state(&g)));
+                }
+                SOp::Gen => {
+                    let sum = g.generate(Daily);
+                    let is: Vec<String> = (0..n_inst)
+                        .map(|k| {
+                            let sh = &sum.instruments[&inst_name(k)];
+                            nontrivial |= sh.pnl_drawdown_max.is_some();
+                            pair(
+                                &dec_q(sh.pnl),
+                                &coq_report(&sh.pnl_drawdown, &sh.pnl_drawdown_mean, &sh.pnl_drawdown_max),
+                            )
+                        })
+                        .collect();
+                    let as_: Vec<String> = (0..starts.len())
+                        .map(|k| {
+                            let sh = &sum.assets[&asset_key(k)];
+                            nontrivial |= sh.drawdown_max.is_some();
+                            pair(
+                                &coq_obal(&sh.balance_end),
+                                &coq_report(&sh.drawdown, &sh.drawdown_mean, &sh.drawdown_max),
+                            )
+                        })
+                        .collect();
+                    tags.push("summary_gen".to_string());
+                    cops.push("SG".to_string());
+                    obs.push(format!("(Some ({}, {}), {})", list(&is), list(&as_), state(&g)));
+                }
+            }
+        }
+        Ran {
+            coq: format!(
+                "(CSummary {} {}%nat {} {} {} {})",
+                zt(t0),
+                n_inst,
+                list(&starts
+                    .iter()
+                    .map(|(t, v, w)| format!("({}, {}, {})", zt(*t), dec_q(*v), dec_q(*w)))
+                    .collect::<Vec<_>>()),
+                list(&cops),
+                obs0,
+                list(&obs)
+            ),
+            tags,
+            nontrivial,
+        }
+    }));
+    r.unwrap_or_else(|e| panic_case(true, &format!("TradingSummaryGenerator: {}", ascii(&e))))
+}
+
 // ---- executing an input ---------------------------------------------------------------------
 
 fn opt_dd(v: &Value) -> Option<Option<DdIn>> {
@@ -503,7 +725,7 @@ fn run_input(inp: &Value) -> Option<Ran> {
             let start = if st.is_null() {
                 None
             } else {
-                Some((st.get("t")?.as_i64()?, st.get("v")?.as_str()?.parse().ok()?))
+                Some((json_time(st.get("t")?)?, st.get("v")?.as_str()?.parse().ok()?))
             };
             Some(run_gen(&start, &ops_from(&inp["ops"])?))
         }
@@ -512,13 +734,34 @@ fn run_input(inp: &Value) -> Option<Ran> {
         "asset" => {
             let st = &inp["start"];
             let start = (
-                st.get("t")?.as_i64()?,
+                json_time(st.get("t")?)?,
                 st.get("v")?.as_str()?.parse().ok()?,
                 st.get("w")?.as_str()?.parse().ok()?,
             );
             Some(run_asset(&start, &ops_from(&inp["ops"])?))
         }
-        "inst" => Some(run_inst(inp.get("t0")?.as_i64()?, &ops_from(&inp["ops"])?)),
+        "inst" => Some(run_inst(json_time(inp.get("t0")?)?, &ops_from(&inp["ops"])?)),
+        "summary" => {
+            let starts: Option<Vec<(Ns, Decimal, Decimal)>> = inp
+                .get("assets")?
+                .as_array()?
+                .iter()
+                .map(|st| {
+                    Some((
+                        json_time(st.get("t")?)?,
+                        st.get("v")?.as_str()?.parse().ok()?,
+                        st.get("w")?.as_str()?.parse().ok()?,
+                    ))
+                })
+                .collect();
+            let ops: Option<Vec<SOp>> = inp.get("ops")?.as_array()?.iter().map(SOp::from).collect();
+            Some(run_summary(
+                json_time(inp.get("t0")?)?,
+                inp.get("n_inst")?.as_u64()? as usize,
+                &starts?,
+                &ops?,
+            ))
+        }
         _ => None,
     }
 }
@@ -535,18 +778,23 @@ fn emit(em: &mut Emitter, stream: &'static str, inp: Value) {
     }
 }
 
-fn gen_input(start: &Option<(i64, Decimal)>, ops: &[Op]) -> Value {
+fn gen_input(start: &Option<(Ns, Decimal)>, ops: &[Op]) -> Value {
     json!({"kind": "gen",
-           "start": start.map(|(t, v)| json!({"t": t, "v": v.to_string()})),
+           "start": start.map(|(t, v)| json!({"t": time_json(t), "v": v.to_string()})),
            "ops": ops_json(ops)})
 }
-fn asset_input(start: &(i64, Decimal, Decimal), ops: &[Op]) -> Value {
+fn asset_input(start: &(Ns, Decimal, Decimal), ops: &[Op]) -> Value {
     json!({"kind": "asset",
-           "start": {"t": start.0, "v": start.1.to_string(), "w": start.2.to_string()},
+           "start": {"t": time_json(start.0), "v": start.1.to_string(), "w": start.2.to_string()},
            "ops": ops_json(ops)})
 }
-fn inst_input(t0: i64, ops: &[Op]) -> Value {
-    json!({"kind": "inst", "t0": t0, "ops": ops_json(ops)})
+fn inst_input(t0: Ns, ops: &[Op]) -> Value {
+    json!({"kind": "inst", "t0": time_json(t0), "ops": ops_json(ops)})
+}
+fn summary_input(t0: Ns, n_inst: usize, starts: &[(Ns, Decimal, Decimal)], ops: &[SOp]) -> Value {
+    json!({"kind": "summary", "t0": time_json(t0), "n_inst": n_inst,
+           "assets": starts.iter().map(|(t, v, w)| json!({"t": time_json(*t), "v": v.to_string(), "w": w.to_string()})).collect::<Vec<_>>(),
+           "ops": ops.iter().map(|o| o.json()).collect::<Vec<_>>()})
 }
 fn dd_input(kind: &str, init: &Option<DdIn>, ds: &[DdIn]) -> Value {
     json!({"kind": kind, "init": init.as_ref().map(|d| d.json()),
@@ -555,7 +803,7 @@ fn dd_input(kind: &str, init: &Option<DdIn>, ds: &[DdIn]) -> Value {
 
 // ---- generators -----------------------------------------------------------------------------
 
-const T0: i64 = 1_700_000_000_000;
+const T0: Ns = 1_700_000_000_000 * MS;
 
 /// how values of one curve are drawn
 #[derive(Clone, Copy, Debug)]
@@ -568,7 +816,6 @@ enum Mag {
 }
 
 fn value_at(r: &mut Rng, mag: Mag, level: i64) -> Decimal {
-    // `level` is an abstract height >= ... ; the magnitude decides its rendering
     match mag {
         Mag::Grid => mk_dec(level, 0),
         Mag::Cents => mk_dec(10_000 + level * 37, 2),
@@ -581,47 +828,59 @@ fn value_at(r: &mut Rng, mag: Mag, level: i64) -> Decimal {
     }
 }
 
-/// a curve as abstract levels; shapes chosen to hit every branch: monotone, oscillating, equal
-/// consecutive values, recovery exactly to the previous peak (not above), a new peak right after
-/// a peak, long declines
+/// a curve as abstract levels; shapes chosen to hit every branch: monotone, oscillating, long
+/// runs of equal values, recovery exactly to the previous peak (not above), a new peak right after
+/// a peak, long declines, curves that start at their maximum, a deep decline followed by partial
+/// recoveries
 fn gen_levels(r: &mut Rng, n: usize) -> Vec<i64> {
     let mut v = vec![];
-    let mut cur: i64 = r.range(3, 12);
+    let shape = r.below(11);
+    let mut cur: i64 = if shape == 8 { 40 } else { r.range(3, 12) };
     let mut peak = cur;
     v.push(cur);
-    let shape = r.below(8);
     while v.len() < n {
         let step = match shape {
             0 => r.range(0, 3),                    // monotone up (with plateaus)
-            1 => -r.range(0, 2),                   // monotone down
+            1 => -r.range(0, 2),                   // monotone down: starts at its maximum
             2 => if v.len() % 2 == 0 { r.range(1, 6) } else { -r.range(1, 6) }, // oscillating
-            3 => *r.pick(&[0, 0, 1, -1]),          // plateaus
+            3 => *r.pick(&[0, 0, 0, 0, 0, 1, -1]), // long runs of equal consecutive values
+            8 => {
+                // starts at its maximum and never exceeds it (may touch it exactly)
+                let s = r.range(-4, 4);
+                if cur + s > 40 { 40 - cur } else { s }
+            }
+            9 => {
+                // deep decline, then partial recoveries that never reach the trough again
+                if v.len() == 1 { -r.range(5, 9) } else { *r.pick(&[1, 1, 0, -1, 2]) }
+            }
             _ => r.range(-4, 4),                   // random walk
         };
         cur += step;
-        match r.below(12) {
-            0 => cur = peak,                       // recover exactly to the running peak
-            1 => cur = peak + 1,                   // barely above
-            2 => {
-                // a long decline
-                let k = r.range(2, 6) as usize;
-                for _ in 0..k {
-                    if v.len() < n {
-                        cur -= r.range(0, 2);
-                        v.push(cur);
+        if shape != 8 {
+            match r.below(12) {
+                0 => cur = peak,                   // recover exactly to the running peak
+                1 => cur = peak + 1,               // barely above
+                2 => {
+                    // a long decline
+                    let k = r.range(2, 6) as usize;
+                    for _ in 0..k {
+                        if v.len() < n {
+                            cur -= r.range(0, 2);
+                            v.push(cur);
+                        }
                     }
                 }
-            }
-            3 => {
-                // two new peaks in a row
-                cur = peak + r.range(1, 3);
-                if v.len() < n {
-                    v.push(cur);
+                3 => {
+                    // two new peaks in a row
+                    cur = peak + r.range(1, 3);
+                    if v.len() < n {
+                        v.push(cur);
+                    }
+                    peak = peak.max(cur);
+                    cur = peak + r.range(1, 3);
                 }
-                peak = peak.max(cur);
-                cur = peak + r.range(1, 3);
+                _ => {}
             }
-            _ => {}
         }
         if v.len() < n {
             v.push(cur);
@@ -631,34 +890,61 @@ fn gen_levels(r: &mut Rng, n: usize) -> Vec<i64> {
     v
 }
 
-fn gen_times(r: &mut Rng, n: usize, adversarial: bool) -> Vec<i64> {
-    let mut t = T0 + r.below(1_000_000) as i64;
+/// one gap between consecutive point times, in ns. Durations are reported in ms through
+/// `num_milliseconds` (truncation of the ns difference), so sub-millisecond gaps, gaps of a whole
+/// ms +- 1 ns and ordinary gaps with a ns remainder all matter.
+fn gen_gap(r: &mut Rng, adversarial: bool) -> Ns {
+    if adversarial {
+        match r.below(5) {
+            0 => return 0,                                    // equal timestamps
+            1 => return -(r.below(50_000_000_000) as i128),   // out of order (up to 50 s back)
+            2 => return -(1 + r.below(999_999) as i128),      // out of order by less than a ms
+            _ => {}
+        }
+    }
+    match r.below(12) {
+        0 => 1,                                               // 1 ns
+        1 => 1 + r.below(999) as i128,                        // < 1 us
+        2 => 1_000 + r.below(998_999) as i128,                // 1 us .. 999.999 us
+        3 => MS - 1,
+        4 => MS,
+        5 => MS + 1,
+        6 => r.range(1, 50) as i128 * MS + *r.pick(&[-1i128, 0, 1, 499_999, 500_000]),
+        7 => 86_400 * NS * (1 + r.below(30) as i128) + r.below(NS as u64) as i128, // days
+        8 => 86_400 * NS * 365 * (1 + r.below(3) as i128),   // years
+        _ => 1 + r.below(3_600_000_000_000) as i128,          // up to an hour, ns remainder
+    }
+}
+
+fn gen_times(r: &mut Rng, n: usize, adversarial: bool) -> Vec<Ns> {
+    // base: around 2023, on / just before / just after a ms boundary, far past, far future
+    let base = match r.below(10) {
+        0 => -30_000_000_000 * NS + 123_456_789,             // year ~1019
+        1 => 200_000_000_000 * NS + 987_654_321,             // year ~8307
+        2 => -(r.below(1_000_000) as i128) * MS - 1,          // just before the epoch
+        _ => T0 + r.below(1_000_000) as i128 * MS,
+    };
+    let mut t = base + *r.pick(&[0i128, 1, 999_999, 500_000, 123_457]);
     let mut v = vec![];
-    for _ in 0..n {
+    // sometimes: a long first gap then only short ones, so that the mean duration must decrease
+    let long_then_short = r.chance(1, 6);
+    for i in 0..n {
         v.push(t);
-        t += if adversarial {
-            match r.below(4) {
-                0 => 0,                                  // equal timestamps
-                1 => -(r.below(50_000) as i64),          // out of order
-                _ => 1 + r.below(100_000) as i64,
-            }
+        t += if long_then_short {
+            if i < 3 { 86_400 * NS * 10 + r.below(NS as u64) as i128 } else { 1 + r.below(5_000_000) as i128 }
         } else {
-            match r.below(6) {
-                0 => 1,
-                1 => 86_400_000 * (1 + r.below(30) as i64),
-                _ => 1 + r.below(3_600_000) as i64,
-            }
+            gen_gap(r, adversarial)
         };
     }
     v
 }
 
 /// a timed curve of `n` points
-fn gen_curve(r: &mut Rng, n: usize, adversarial: bool) -> Vec<(i64, Decimal)> {
+fn gen_curve(r: &mut Rng, n: usize, adversarial: bool) -> Vec<(Ns, Decimal)> {
     let mag = *r.pick(&[Mag::Grid, Mag::Grid, Mag::Cents, Mag::Cents, Mag::Tiny, Mag::Huge, Mag::Mixed]);
     let levels = gen_levels(r, n);
     let times = gen_times(r, n, adversarial);
-    let mut pts: Vec<(i64, Decimal)> = times
+    let mut pts: Vec<(Ns, Decimal)> = times
         .into_iter()
         .zip(levels.into_iter())
         .map(|(t, l)| (t, value_at(r, mag, l)))
@@ -680,20 +966,25 @@ fn gen_curve(r: &mut Rng, n: usize, adversarial: bool) -> Vec<(i64, Decimal)> {
     pts
 }
 
-/// insert generate() calls: sometimes none, sometimes at random points (repeated), sometimes
-/// after every update
-fn with_gens(r: &mut Rng, pts: &[(i64, Decimal)], mode: u64, free: bool) -> Vec<Op> {
+/// the free balance is a decoy: never equal to the total
+fn decoy_free(r: &mut Rng, total: Decimal) -> Decimal {
+    total - mk_dec(r.range(1, 3), 0)
+}
+
+/// insert generate() calls: mode 0 none; 1 at random points, 1..3 times in a row; 2 after every
+/// update 1..3 times
+fn with_gens(r: &mut Rng, pts: &[(Ns, Decimal)], mode: u64, free: bool) -> Vec<Op> {
     let mut ops = vec![];
     if mode >= 1 && r.chance(1, 4) {
         ops.push(Op::Gen);
     }
     for (t, v) in pts {
-        let w = if free { *v - mk_dec(r.range(0, 3), 0) } else { Decimal::ZERO };
+        let w = if free { decoy_free(r, *v) } else { Decimal::ZERO };
         ops.push(Op::Upd { t: *t, v: *v, w });
         let k = match mode {
             0 => 0,
             1 => if r.chance(1, 4) { 1 + r.below(3) } else { 0 },
-            _ => 1 + r.below(2),
+            _ => 1 + r.below(3),
         };
         for _ in 0..k {
             ops.push(Op::Gen);
@@ -711,17 +1002,18 @@ fn gen_dd(r: &mut Rng, style: u64) -> DdIn {
             if r.chance(1, 3) { -m } else { m }
         }
     };
-    let s = T0 + r.below(10_000_000) as i64;
-    let e = s + match r.below(5) {
+    let s = gen_times(r, 1, false)[0];
+    // durations: sub-ms, around whole ms, long; sometimes negative (end before start)
+    let e = s + match r.below(8) {
         0 => 0,
-        1 => r.range(1, 5),
-        _ => r.range(1, 100_000_000),
+        1 => -gen_gap(r, false),
+        _ => gen_gap(r, false),
     };
     DdIn { v, s, e }
 }
 
 /// PnL deltas whose cumulative sum follows the curve (first delta = first value)
-fn deltas(pts: &[(i64, Decimal)]) -> Vec<(i64, Decimal)> {
+fn deltas(pts: &[(Ns, Decimal)]) -> Vec<(Ns, Decimal)> {
     let mut prev = Decimal::ZERO;
     pts.iter()
         .map(|(t, v)| {
@@ -732,67 +1024,108 @@ fn deltas(pts: &[(i64, Decimal)]) -> Vec<(i64, Decimal)> {
         .collect()
 }
 
+/// table times: one second apart with a sub-ms remainder that differs per index
+fn table_time(i: usize) -> Ns {
+    T0 + NS * i as i128 + 300_007 * (i * i) as i128
+}
+
 fn table(em: &mut Emitter) {
-    // every curve of length 1..=5 over three levels, default() start, generate() at the end;
-    // depth classes: deeper / equal / shallower than the deepest so far; recovery to the peak
-    // exactly / above it / new peak right after a peak
     let vals = [mk_dec(20, 0), mk_dec(25, 0), mk_dec(40, 0)];
-    for n in 1..=5usize {
-        let total = 3usize.pow(n as u32);
-        for code in 0..total {
-            let mut c = code;
-            let mut ops = vec![];
-            for i in 0..n {
-                ops.push(Op::Upd { t: T0 + 1000 * i as i64 + (i * i) as i64, v: vals[c % 3], w: Decimal::ZERO });
+    let curve = |n: usize, code: usize, first: usize| -> Vec<(Ns, Decimal)> {
+        let mut c = code;
+        (0..n)
+            .map(|i| {
+                let p = (table_time(first + i), vals[c % 3]);
                 c /= 3;
+                p
+            })
+            .collect()
+    };
+    // DrawdownGenerator::default(): every curve of length 5 over three levels, generate() at the
+    // end (depth classes: deeper / equal / shallower than the deepest so far; recovery to the
+    // peak exactly / above it / new peak right after a peak) ...
+    for code in 0..3usize.pow(5) {
+        let mut ops: Vec<Op> = curve(5, code, 0)
+            .into_iter()
+            .map(|(t, v)| Op::Upd { t, v, w: Decimal::ZERO })
+            .collect();
+        ops.push(Op::Gen);
+        emit(em, "table", gen_input(&None, &ops));
+    }
+    // ... and every curve of length 1..=3 (k = 0, 1, 2, 3) and 4 (k = 1, 3) with generate() called
+    // k times after EVERY update (mid-decline followed by deeper points, partial recovery, exact recovery,
+    // recovery above the peak)
+    for n in 1..=4usize {
+        for code in 0..3usize.pow(n as u32) {
+            let ks: &[usize] = if n <= 3 { &[0, 1, 2, 3] } else { &[1, 3] };
+            for k in ks {
+                let k = *k;
+                let mut ops = vec![];
+                for (t, v) in curve(n, code, 0) {
+                    ops.push(Op::Upd { t, v, w: Decimal::ZERO });
+                    for _ in 0..k {
+                        ops.push(Op::Gen);
+                    }
+                }
+                emit(em, "table", gen_input(&None, &ops));
             }
-            ops.push(Op::Gen);
-            emit(em, "table", gen_input(&None, &ops));
         }
     }
-    // tear sheets: every curve of length 1..=4 after the start value, generate() twice after
-    // every update
+    // tear sheets: every curve of length 1..=3 after the start value with generate() k = 0..3
+    // times after every update (k = 0: once at the end), and every curve of length 4 with k = 2
+    // (alternately through the asset and the instrument tear sheet)
     for n in 1..=4usize {
-        let total = 3usize.pow(n as u32);
-        for code in 0..total {
-            let mut c = code;
-            let mut pts = vec![];
-            for i in 0..n {
-                pts.push((T0 + 1000 * (i as i64 + 1) + (i * i) as i64, vals[c % 3]));
-                c /= 3;
+        for code in 0..3usize.pow(n as u32) {
+            let ks: &[usize] = if n <= 3 { &[0, 1, 2, 3] } else { &[2] };
+            for k in ks {
+                let pts = curve(n, code, 1);
+                let mut ops = vec![];
+                for (t, v) in &pts {
+                    ops.push(Op::Upd { t: *t, v: *v, w: vals[0] });
+                    for _ in 0..*k {
+                        ops.push(Op::Gen);
+                    }
+                }
+                if *k == 0 {
+                    ops.push(Op::Gen);
+                }
+                if n <= 3 || code % 2 == 0 {
+                    emit(em, "table", asset_input(&(table_time(0), vals[1], vals[0]), &ops));
+                }
+                if n == 4 && code % 2 == 0 {
+                    continue;
+                }
+                let mut all = vec![(table_time(0), vals[1])];
+                all.extend(pts.iter().cloned());
+                let mut iops = vec![];
+                for (t, d) in deltas(&all) {
+                    iops.push(Op::Upd { t, v: d, w: Decimal::ZERO });
+                    for _ in 0..*k {
+                        iops.push(Op::Gen);
+                    }
+                }
+                if *k == 0 {
+                    iops.push(Op::Gen);
+                }
+                emit(em, "table", inst_input(table_time(0) - 5, &iops));
             }
-            let mut ops = vec![];
-            for (t, v) in &pts {
-                ops.push(Op::Upd { t: *t, v: *v, w: vals[0] });
-                ops.push(Op::Gen);
-                ops.push(Op::Gen);
-            }
-            emit(em, "table", asset_input(&(T0, vals[1], vals[0]), &ops));
-            let mut all = vec![(T0, vals[1])];
-            all.extend(pts.iter().cloned());
-            let mut iops = vec![];
-            for (t, d) in deltas(&all) {
-                iops.push(Op::Upd { t, v: d, w: Decimal::ZERO });
-                iops.push(Op::Gen);
-                iops.push(Op::Gen);
-            }
-            emit(em, "table", inst_input(T0 - 5, &iops));
         }
     }
     // max / mean generators: every sequence of length <= 3 over {0.1, 0.2, -0.2} (ties between
-    // different drawdowns, negative values), with default() and init() starts
+    // different drawdowns, negative values) x duration classes {long, sub-ms, 1 ms - 1 ns}:
+    // later drawdowns shorter than the running mean, default() and init() starts
     let dvals = [mk_dec(1, 1), mk_dec(2, 1), mk_dec(-2, 1)];
+    let durs: [Ns; 3] = [10 * 86_400 * NS + 1, 999_999, 2 * 86_400 * NS + MS - 1];
     for n in 0..=3usize {
-        let total = 3usize.pow(n as u32);
-        for code in 0..total {
+        for code in 0..3usize.pow(n as u32) {
             let mut c = code;
             let mut ds = vec![];
             for i in 0..n {
-                let s = T0 + 10_000 * i as i64;
-                ds.push(DdIn { v: dvals[c % 3], s, e: s + 1000 + 333 * (c % 3) as i64 + i as i64 });
+                let s = T0 + 10 * NS * i as i128 + 17 * i as i128;
+                ds.push(DdIn { v: dvals[c % 3], s, e: s + durs[(c + i) % 3] });
                 c /= 3;
             }
-            for init in [None, Some(DdIn { v: mk_dec(2, 1), s: T0 - 7, e: T0 - 2 })] {
+            for init in [None, Some(DdIn { v: mk_dec(2, 1), s: T0 - 7 * MS, e: T0 - 2 * MS + 999_999 })] {
                 emit(em, "table", dd_input("max", &init, &ds));
                 emit(em, "table", dd_input("mean", &init, &ds));
             }
@@ -800,9 +1133,57 @@ fn table(em: &mut Emitter) {
     }
 }
 
+/// several instruments and assets fed interleaved through one TradingSummaryGenerator
+fn gen_summary(em: &mut Emitter, r: &mut Rng, stream: &'static str, max_len: usize) {
+    let n_inst = 1 + r.below(4) as usize;
+    let n_asset = 1 + r.below(3) as usize;
+    let adv = stream == "adversarial";
+    // one curve per key; the interleaving consumes them in random order
+    let mut inst_curves: Vec<Vec<(Ns, Decimal)>> = (0..n_inst)
+        .map(|_| { let n = 1 + r.below(max_len as u64) as usize; deltas(&gen_curve(r, n, adv)) })
+        .collect();
+    let mut asset_curves: Vec<Vec<(Ns, Decimal)>> = (0..n_asset)
+        .map(|_| { let n = 2 + r.below(max_len as u64) as usize; gen_curve(r, n, adv) })
+        .collect();
+    let starts: Vec<(Ns, Decimal, Decimal)> = asset_curves
+        .iter_mut()
+        .map(|c| { let p = c.remove(0); (p.0, p.1, decoy_free(r, p.1)) })
+        .collect();
+    for c in inst_curves.iter_mut().chain(asset_curves.iter_mut()) {
+        c.reverse();
+    }
+    let t0 = T0 - 1 - r.below(1000) as i128;
+    let mut ops = vec![];
+    loop {
+        let live: Vec<usize> = (0..n_inst + n_asset)
+            .filter(|k| if *k < n_inst { !inst_curves[*k].is_empty() } else { !asset_curves[*k - n_inst].is_empty() })
+            .collect();
+        if live.is_empty() {
+            break;
+        }
+        let k = *r.pick(&live);
+        let by_name = r.chance(1, 3);
+        if k < n_inst {
+            let (t, v) = inst_curves[k].pop().unwrap();
+            ops.push(SOp::Pos { k, by_name, t, v });
+        } else {
+            let (t, v) = asset_curves[k - n_inst].pop().unwrap();
+            let w = decoy_free(r, v);
+            ops.push(SOp::Bal { k: k - n_inst, by_name, t, v, w });
+        }
+        if r.chance(1, 4) {
+            for _ in 0..1 + r.below(3) {
+                ops.push(SOp::Gen);
+            }
+        }
+    }
+    ops.push(SOp::Gen);
+    emit(em, stream, summary_input(t0, n_inst, &starts, &ops));
+}
+
 fn random(em: &mut Emitter, r: &mut Rng, thorough: bool) {
-    let (n_gen, n_adv, n_dd, n_ts, max_len) =
-        if thorough { (1000, 300, 600, 800, 50) } else { (220, 80, 120, 170, 26) };
+    let (n_gen, n_adv, n_dd, n_ts, n_sum, max_len) =
+        if thorough { (900, 300, 600, 600, 120, 50) } else { (130, 60, 100, 110, 24, 22) };
     for i in 0..n_gen + n_adv {
         let adv = i >= n_gen;
         let n = 1 + r.below(max_len) as usize;
@@ -828,13 +1209,16 @@ fn random(em: &mut Emitter, r: &mut Rng, thorough: bool) {
         let stream = if adv { "adversarial" } else { "random" };
         if i % 2 == 0 {
             let ops = with_gens(r, &pts[1..], mode, true);
-            let free0 = pts[0].1 - mk_dec(r.range(0, 2), 0);
+            let free0 = decoy_free(r, pts[0].1);
             emit(em, stream, asset_input(&(pts[0].0, pts[0].1, free0), &ops));
         } else {
             let ds = deltas(&pts);
             let ops = with_gens(r, &ds, mode, false);
-            emit(em, stream, inst_input(pts[0].0 - 1 - r.below(1000) as i64, &ops));
+            emit(em, stream, inst_input(pts[0].0 - 1 - r.below(1000) as i128, &ops));
         }
+    }
+    for i in 0..n_sum {
+        gen_summary(em, r, if i % 6 == 5 { "adversarial" } else { "random" }, if thorough { 8 } else { 5 });
     }
 }
 
